@@ -12,7 +12,8 @@ META = {
                    "constructor (required keyword-only parameters included); concrete subclasses define every "
                    "abstract member; direct calls of Pulser callables bind to their signatures; overrides and "
                    "monkey-patched observable implementations accept the keywords Pulser passes; attributes read "
-                   "on parameters annotated with Pulser classes exist (or the class has dynamic attributes).",
+                   "on parameters annotated with Pulser classes exist (or the class has dynamic attributes). "
+                   "APICOMPAT-norm: MPS._from_state_amplitudes renormalises whenever |norm⁴−1| exceeds the tolerance read from the installed Pulser's State._to_abstract_repr, and MPS.overlap is |⟨a|b⟩|².",
     "not_decided": "behavioural changes that keep signatures (e.g. the rank of NoiseTrajectory.interaction_matrix, "
                    "3 in 1.9.1); releases admitted by the specifier but not available offline (1.8.x)",
     "trusted_base": ["CPython ast", "packaging.specifiers", "the installed pulser-core source tree"],
